@@ -83,9 +83,15 @@ func LoadProgram(repo, harnessDir string) (*Program, error) {
 					if !strings.HasPrefix(txt, "verif:stub ") {
 						continue
 					}
-					fields := strings.Fields(strings.TrimPrefix(txt, "verif:stub "))
-					if len(fields) == 0 {
-						continue
+					rest := strings.TrimSpace(strings.TrimPrefix(txt, "verif:stub "))
+					calleeName := rest
+					opts := ""
+					if i := strings.Index(rest, " harness="); i >= 0 {
+						calleeName, opts = strings.TrimSpace(rest[:i]), strings.TrimSpace(rest[i:])
+					}
+					fields := []string{calleeName}
+					if opts != "" {
+						fields = append(fields, opts)
 					}
 					decl := stubDecl{fn: sp.Func(fd.Name.Name)}
 					if decl.fn == nil {
@@ -99,7 +105,8 @@ func LoadProgram(repo, harnessDir string) (*Program, error) {
 							}
 						}
 					}
-					P.stubs[fields[0]] = append(P.stubs[fields[0]], decl)
+					key := strings.ReplaceAll(fields[0], ",", "")
+					P.stubs[key] = append(P.stubs[key], decl)
 				}
 			}
 		}
